@@ -42,7 +42,7 @@ func (w *World) monitors(rec *CheckRec) {
 		return
 	}
 	w.monPanic(rec)
-	if rec.Class == "panic" {
+	if rec.Class == "panic" || rec.Class == "abandoned" {
 		return
 	}
 	w.monRedirect(rec) // C05 + C13 (+ registers the new session)
